@@ -35,7 +35,7 @@ type LogSink struct {
 	Lines  []LogLine      // level >= Info, capped
 	Total  int
 	// OnLog, when set, is called (outside the sink's lock) for every log call.
-	OnLog func(level, format string)
+	OnLog     func(level, format string)
 	KeepDebug bool
 }
 
@@ -82,16 +82,16 @@ func (s *LogSink) TotalCalls() int {
 
 type simLogger struct{ s *LogSink }
 
-func (l simLogger) Trace(msg string)                  { l.s.log("T", "%s", msg) }
-func (l simLogger) Tracef(f string, a ...any)         { l.s.log("T", f, a...) }
-func (l simLogger) Debug(msg string)                  { l.s.log("D", "%s", msg) }
-func (l simLogger) Debugf(f string, a ...any)         { l.s.log("D", f, a...) }
-func (l simLogger) Info(msg string)                   { l.s.log("I", "%s", msg) }
-func (l simLogger) Infof(f string, a ...any)          { l.s.log("I", f, a...) }
-func (l simLogger) Warn(msg string)                   { l.s.log("W", "%s", msg) }
-func (l simLogger) Warnf(f string, a ...any)          { l.s.log("W", f, a...) }
-func (l simLogger) Error(msg string)                  { l.s.log("E", "%s", msg) }
-func (l simLogger) Errorf(f string, a ...any)         { l.s.log("E", f, a...) }
+func (l simLogger) Trace(msg string)          { l.s.log("T", "%s", msg) }
+func (l simLogger) Tracef(f string, a ...any) { l.s.log("T", f, a...) }
+func (l simLogger) Debug(msg string)          { l.s.log("D", "%s", msg) }
+func (l simLogger) Debugf(f string, a ...any) { l.s.log("D", f, a...) }
+func (l simLogger) Info(msg string)           { l.s.log("I", "%s", msg) }
+func (l simLogger) Infof(f string, a ...any)  { l.s.log("I", f, a...) }
+func (l simLogger) Warn(msg string)           { l.s.log("W", "%s", msg) }
+func (l simLogger) Warnf(f string, a ...any)  { l.s.log("W", f, a...) }
+func (l simLogger) Error(msg string)          { l.s.log("E", "%s", msg) }
+func (l simLogger) Errorf(f string, a ...any) { l.s.log("E", f, a...) }
 
 // NewLogger implements logging.LoggerFactory.
 func (s *LogSink) NewLogger(string) logging.LeveledLogger { return simLogger{s} }
@@ -116,14 +116,14 @@ type LifeEvent struct {
 
 // Resource is one socket/listener/connection handed to the server by the relay generator.
 type Resource struct {
-	Kind  string // "udp" "listener" "conn"
-	Addr  string // relay address (ip:port) - for conn: local address
-	Peer  string // for conn: remote
-	User  string
-	At    time.Time
-	UDP   *simnet.UDPConn
-	L     *simnet.Listener
-	C     *simnet.Conn
+	Kind string // "udp" "listener" "conn"
+	Addr string // relay address (ip:port) - for conn: local address
+	Peer string // for conn: remote
+	User string
+	At   time.Time
+	UDP  *simnet.UDPConn
+	L    *simnet.Listener
+	C    *simnet.Conn
 }
 
 // Open reports whether the resource is still open.
@@ -140,11 +140,11 @@ func (r *Resource) Open() bool {
 
 // RelayGen is the harness' RelayAddressGenerator.
 type RelayGen struct {
-	W    *World
-	IP4  net.IP
-	IP6  net.IP
-	mu   sync.Mutex
-	Res  []*Resource
+	W   *World
+	IP4 net.IP
+	IP6 net.IP
+	mu  sync.Mutex
+	Res []*Resource
 	// FailNext[kind] > 0 makes the next calls of that kind fail.
 	FailNext map[string]int
 	Calls    map[string]int
@@ -305,13 +305,13 @@ var (
 
 // World is one simulated deployment.
 type World struct {
-	Cfg  Config
-	Net  *simnet.Net
-	Srv  *turn.Server
-	Gen  *RelayGen
-	Log  *LogSink
-	Rec  *Rec
-	Rng  *rand.Rand
+	Cfg    Config
+	Net    *simnet.Net
+	Srv    *turn.Server
+	Gen    *RelayGen
+	Log    *LogSink
+	Rec    *Rec
+	Rng    *rand.Rand
 	Bubble bool
 
 	ServerUDP []*simnet.UDPConn
@@ -325,9 +325,10 @@ type World struct {
 	// OnEvent is called inside each lifecycle callback after recording.
 	OnEvent func(ev LifeEvent)
 	// PermHook/AuthHook are called inside the handlers (yield points).
-	PermHook func()
-	AuthHook func()
+	PermHook          func()
+	AuthHook          func()
 	callbacksInFlight int
+	connAttempts      []ConnAttempt
 
 	Clients []*RawClient
 	Peers   []*Peer
